@@ -179,6 +179,13 @@ func scenFED(s *sched.Sim, cfg Config, res *Result) {
 		fo.want = env.reference(op)
 		ops = append(ops, fo)
 	}
+	{
+		var d []string
+		for _, fo := range ops {
+			d = append(d, fmt.Sprintf("%s vars=%v", fo.op.Text, fo.op.Vars))
+		}
+		s.Describe(map[string]any{"services": w.ServiceSDL, "gateway": gc.String(), "operations": d, "overlapping_clients": overlap})
+	}
 	doneCount := 0
 	run := func(fo *fedOp) {
 		fo.resp = env.post(fo.client, []clientReq{{Query: fo.op.Text, Variables: fo.op.Vars, OperationName: fo.op.OpName}}, false)
